@@ -387,7 +387,7 @@ class Gen:
 
     def function(self, sc):
         self.fn_count += 1
-        kind = self.r.randrange(15)
+        kind = self.r.randrange(16)
         name = f"f{self.fn_count}"
         deco = ""
         if self.chance(self.o["decorators"]):
@@ -475,6 +475,23 @@ class Gen:
                 call = f"{name}({arg()}, {arg()})" if two else f"{name}({arg()})"
                 out.append(self.pick([f"println({call})", f"let {name}r = {call}\nprintln({name}r)", f"println({call} + {call})"]))
             out.append(f"println({name}c)")
+        elif kind == 15:        # a capturing closure kept in a global, making nested functions, called again and again from one site
+            self.features.add("global-closure-repeated-site")
+            inner = self.pick(["let g = fn(x) { return x + 1 }; return g(c)",
+                               "fn g(x) { return x * 2 }; return g(c) + c",
+                               "let g = fn() { return c }; return g() + g()",
+                               "return c"])
+            out.append(f"fn {name}mk(s) {{ let mut c = s; return fn() {{ c += {self.r.randrange(1, 4)}; {inner} }} }}")
+            out.append(f"let {name}h = {name}mk({self.r.randrange(0, 9)})")
+            if self.chance(0.5):
+                out.append(f"let {name}k = {name}mk({self.r.randrange(10, 19)})")
+                out.append(f"for i in 0..{self.r.randrange(2, 5)} {{ println({name}h() + {name}k()) }}")
+            else:
+                out.append(f"for i in 0..{self.r.randrange(2, 5)} {{ println({name}h()) }}")
+            if self.chance(0.5):
+                out.append(f"fn {name}r() {{ return {name}h() }}")
+                out.append(f"println({name}r() + {name}r())")
+                out.append(f"println({name}r())")
         elif kind == 14:        # live ranges with holes: early-dead parameters / locals, then locals made by calls
             self.features.add("call-into-freed-register")
             g = f"{name}g"
